@@ -138,6 +138,8 @@ func c41(r *core.Run) {
 	r.Floor("R3.recover", 1)
 	// shared ERR rule restricted to this codec: a failure of an inner encode/decode step must not be dropped
 	errDiscipline(r, "R4.errdrop", "encoding/json functions", func(fn *ssa.Function) bool { return fn.Pkg != nil && fn.Pkg.Pkg.Path() == mod+"/encoding/json" }, 12)
+	fixedPointSign(r, "R5.fixsign")
+	r.Floor("R5.fixsign", 3)
 }
 
 func c43(r *core.Run) {
@@ -189,4 +191,51 @@ func c43(r *core.Run) {
 	r.Floor("R1.constructors", 30)
 	// shared ERR rule restricted to this codec: a failure of an inner encode/decode step must not be dropped
 	errDiscipline(r, "R3.errdrop", "encoding/json functions", func(fn *ssa.Function) bool { return fn.Pkg != nil && fn.Pkg.Pkg.Path() == mod+"/encoding/json" }, 12)
+	fixedPointSign(r, "R4.fixsign")
+	r.Floor("R4.fixsign", 3)
+}
+
+// fixedPointSign: signed fixed-point formatters emit the sign of values in (−1, 0): the integer part of such a value is 0
+// and carries no sign, so the formatter must write '-' itself when the fraction is negative and the integer part is zero.
+// Each listed formatter must contain a write of '-' controlled by a negativity test and a zero test.
+func fixedPointSign(r *core.Run, rule string) {
+	for _, f := range [][2]string{{"encoding/json", "encodeFix64"}, {"format", "Fix64"}, {"format", "formatFixedPointBigInt"}} {
+		fn := mustFn(r, rule, f[0], "", f[1])
+		if fn == nil {
+			continue
+		}
+		ok := false
+		for _, c := range core.Calls(fn, false) {
+			o := core.Callee(c)
+			if o == nil || (o.Name() != "WriteByte" && o.Name() != "WriteString" && o.Name() != "WriteRune") {
+				continue
+			}
+			args := c.Common().Args
+			if len(args) == 0 {
+				continue
+			}
+			k, isConst := args[len(args)-1].(*ssa.Const)
+			if !isConst || k.Value == nil {
+				continue
+			}
+			if s := k.Value.ExactString(); s != "45" && s != `"-"` {
+				continue
+			}
+			neg, zero := false, false
+			for _, a := range core.ControllingConds(c) {
+				d := core.CondDesc(a.Var.Call, a.Val)
+				if strings.HasPrefix(d, "+<(") && strings.Contains(d, "const:0") {
+					neg = true
+				}
+				if strings.HasPrefix(d, "+==(") && strings.Contains(d, "const:0") {
+					zero = true
+				}
+			}
+			if neg && zero {
+				ok = true
+			}
+		}
+		r.Check(ok, rule, core.SSAKey(fn)+": sign of values between -1 and 0", fn.Pos(), "'-' is written when the fraction is negative and the integer part is zero",
+			"the formatter no longer writes the sign for a negative fraction with a zero integer part: -0.5 is formatted as 0.50000000 and decodes to +0.5")
+	}
 }
